@@ -87,3 +87,23 @@ def repeat(src, vals):
         if ki != kc or (ki == "value" and (vi != vc or type(vi) is not type(vc))):
             return False, f"`{src}`, evaluation {i + 1} of the same programs with bindings {sorted(act)}: interp {ki} {vi!r:.60}, compiled {kc} {vc!r:.60}"
     return True, "ok"
+
+
+def ident(name, vals):
+    from celpy import celtypes as ct
+    I = ct.IntType
+    b = {name: I(vals["n"]), "a": I(vals["a"]), "b": I(vals["b"])}
+    for src in [f"{name} + a", f"[a, b].map({name}, {name} + 1)[1]", f"[a].exists({name}, {name} == a) && {name} == b", f"{name} > a ? {name} : a", f"[{name}][0] - a"]:
+        try:
+            pi = make_program(src, "interp")
+        except Exception:  # noqa: BLE001 - not an expression the interpreter accepts: nothing to compare
+            continue
+        try:
+            pc = make_program(src, "compiled")
+        except Exception as ex:  # noqa: BLE001
+            return False, f"`{src}`: compiled runner failed at program construction: {type(ex).__name__}: {ex}"
+        ki, vi = evaluate_outcome(lambda: pi.evaluate(dict(b)))
+        kc, vc = evaluate_outcome(lambda: pc.evaluate(dict(b)))
+        if ki != kc or (ki == "value" and (vi != vc or type(vi) is not type(vc))):
+            return False, f"`{src}` with {name} = {vals['n']}: interp {ki} {vi!r:.60}, compiled {kc} {vc!r:.60}"
+    return True, "ok"
